@@ -4,6 +4,7 @@ C13 — Array set functions implement multiset semantics over identical elements
 -/
 import JsonbModel.Proofs.SetRefine
 import JsonbModel.Proofs.SetRefine2
+import JsonbModel.Proofs.SetCounts
 
 namespace Jsonb.Props
 open Jsonb JV Spec
@@ -53,5 +54,13 @@ theorem C13_overlap_refines (a b : JV) (hga : goodTop a = true) (hgb : goodTop b
 
 example : encodeSpec (arrayDistinct (arr [num (.uint 1), num (.int 1), num (.uint 1), arr [null], arr [null]]))
     = encodeSpec (arr [num (.uint 1), num (.int 1), arr [null]]) := by decide +kernel
+
+/-- **the count formula**: every element occurs in the intersection as often as in both lists (the
+minimum), in `except` the remaining times; both results keep the order of the first list -/
+theorem C13_counts (a b e : JV) :
+    cnt e (elems (arrayIntersection a b)) = min (cnt e (elems a)) (cnt e (elems b)) ∧
+    cnt e (elems (arrayExcept a b)) = cnt e (elems a) - min (cnt e (elems a)) (cnt e (elems b)) ∧
+    (elems (arrayIntersection a b)).Sublist (elems a) ∧
+    (elems (arrayExcept a b)).Sublist (elems a) := Spec.C13_counts a b e
 
 end Jsonb.Props
